@@ -43,7 +43,8 @@ def mk_cell_state(g):
     outcome = g.choice('import', ['raises', 'SimpleToken', 'BarToken', 'note', 'ClefToken', 'unknown-header'])
     token = None if outcome in ('raises', 'unknown-header') else mk_any_token(g, outcome, 'imported')
     importer = None if outcome == 'unknown-header' else SpineImporterStub(outcome == 'raises', token)
-    imp = mk_full_importer(g)
+    # the cells of the row above: ordinary cells, or the cells of a spine-operator record (a split / join just happened)
+    imp = mk_full_importer(g, parents=g.choice('row above', ['cells', 'operators']))
     table = ImporterTableStub(importer)
     errors = g.mlist('errors', lambda e: mk_simple_like(e, 'ErrorToken', 'err'))
     mst = g.mlist('mst', lambda e: e.int('stage', 0))
@@ -58,7 +59,7 @@ def last_operator_of(parent):
     return parent.last_spine_operator_node
 
 
-@contract(IMP + 'run', props=['C02', 'C07', 'C08', 'C12'], name='run_cell_step')
+@contract(IMP + 'run', props=['C02', 'C07', 'C08', 'C10', 'C12'], name='run_cell_step')
 class run_cell_step:
     step = 'for icolumn, column in'
     assumes = (A_STUBS,)
